@@ -422,13 +422,14 @@ Definition cget_law (Q : cppprims) (Wd : nat -> Prop) (buf : list bool) : Prop :
 Lemma ref_cppprims_cget Wd buf : cget_law ref_cppprims Wd buf.
 Proof. intros base cap off w _ _ _ _. reflexivity. Qed.
 
-Lemma cd_subspan_aligned base cap off : off mod 8 = 0 -> cap mod 8 = 0 -> cd_subspan base cap off = (base + off, cap - off, 0).
+Lemma cd_subspan_aligned base cap off : off mod 8 = 0 -> cap mod 8 = 0 ->
+  cd_subspan base cap off = (base + Nat.min off cap, cap - off, 0).
 Proof.
   intros Ho Hc. unfold cd_subspan. destruct (Nat.ltb_spec (off / 8) (cap / 8)); f_equal; try f_equal; lia.
 Qed.
 
 Lemma cd_subspan_bytes_aligned base cap off dh : off mod 8 = 0 -> cap mod 8 = 0 -> dh * 8 <= cap - off ->
-  cd_subspan_bytes base cap off dh = (base + off, dh * 8, 0).
+  cd_subspan_bytes base cap off dh = (base + Nat.min off cap, dh * 8, 0).
 Proof.
   intros Ho Hc Hd. unfold cd_subspan_bytes. rewrite cd_subspan_aligned by assumption. cbv beta iota.
   destruct (Nat.ltb_spec dh ((cap - off) / 8)); f_equal; try f_equal; lia.
@@ -468,11 +469,29 @@ Section CppRefineDes.
     intros H. unfold cview. rewrite skipn_firstn_comm, Refine.skipn_add, firstn_firstn. f_equal. lia.
   Qed.
 
-  Lemma dspan_sub base cap off : dspan base cap -> off mod 8 = 0 -> dspan (base + off) (cap - off).
+  Lemma dspan_sub base cap off : dspan base cap -> off mod 8 = 0 -> dspan (base + Nat.min off cap) (cap - off).
   Proof. intros (H1 & H2 & H3) Ho. unfold dspan. lia. Qed.
 
-  Lemma dspan_sub_bytes base cap off n : dspan base cap -> off mod 8 = 0 -> n mod 8 = 0 -> n <= cap - off -> dspan (base + off) n.
+  Lemma dspan_sub_bytes base cap off n : dspan base cap -> off mod 8 = 0 -> n mod 8 = 0 -> n <= cap - off ->
+    dspan (base + Nat.min off cap) n.
   Proof. intros (H1 & H2 & H3) Ho Hn Hle. unfold dspan. lia. Qed.
+
+  (* the clamped pointer (current source): past the end of the data the sub-span is empty, wherever it points *)
+  Lemma cview_sub_min base cap off : cview (base + Nat.min off cap) (cap - off) = skipn off (cview base cap).
+  Proof.
+    destruct (Nat.le_gt_cases off cap) as [H|H].
+    - rewrite Nat.min_l by exact H. apply cview_sub.
+    - replace (cap - off) with 0 by lia. unfold cview at 1. cbn [firstn]. symmetry. apply skipn_all2.
+      unfold cview. rewrite firstn_length. lia.
+  Qed.
+
+  Lemma cview_sub_bytes_min base cap off n : n <= cap - off ->
+    cview (base + Nat.min off cap) n = firstn n (skipn off (cview base cap)).
+  Proof.
+    intros Hn. destruct (Nat.le_gt_cases off cap) as [H|H].
+    - rewrite Nat.min_l by exact H. apply cview_sub_bytes. exact Hn.
+    - assert (n = 0) by lia. subst n. reflexivity.
+  Qed.
 
   Lemma bool_of_bit (l : list bool) : N.eqb (N_of_bits (take_ze 1 l)) 1 = match take_ze 1 l with b :: _ => b | [] => false end.
   Proof. destruct l as [|[|] r]; reflexivity. Qed.
@@ -519,21 +538,21 @@ Section CppRefineDes.
       assert (Ho : o mod 8 = 0) by (unfold o, header_bits; lia).
       assert (Hh : h * 8 <= cap - o) by (unfold h; lia).
       rewrite (cd_subspan_bytes_aligned base cap o h Ho Hc8 Hh).
-      assert (Hs' : dspan (base + o) (h * 8)) by (apply (dspan_sub_bytes base cap o); try assumption; lia).
-      pose proof (H Hwf (base + o) (h * 8) 0 Hs' eq_refl) as S. cbn [skipn] in S. rewrite shift_0 in S.
-      rewrite (cview_sub_bytes base cap o (h * 8) Hh) in S.
+      assert (Hs' : dspan (base + Nat.min o cap) (h * 8)) by (apply (dspan_sub_bytes base cap o); try assumption; lia).
+      pose proof (H Hwf (base + Nat.min o cap) (h * 8) 0 Hs' eq_refl) as S. cbn [skipn] in S. rewrite shift_0 in S.
+      rewrite (cview_sub_bytes_min base cap o (h * 8) Hh) in S.
       replace (8 * h) with (h * 8) by lia. unfold cd_routine.
       destruct (dec_body (TComp u fs (Some x)) (firstn (h * 8) (skipn o (cview base cap)))) as [[v k]|e];
-        destruct (cd_body Q (TComp u fs (Some x)) buf (base + o) (h * 8) 0) as [[v' o']|e'];
+        destruct (cd_body Q (TComp u fs (Some x)) buf (base + Nat.min o cap) (h * 8) 0) as [[v' o']|e'];
         cbn [shift sim bind] in *; try contradiction; [|exact S].
       destruct S as [-> _]. split; [reflexivity|]. unfold near, o. split; [f_equal; lia | left; lia].
     - (* sealed *)
       cbn [cd_field]. cbn [align] in Ha. pose proof Hs as (Hb8 & Hc8 & HcL).
       rewrite (cd_subspan_aligned base cap off Ha Hc8).
-      pose proof (H Hwf (base + off) (cap - off) 0 (dspan_sub base cap off Hs Ha) eq_refl) as S.
-      cbn [skipn] in S. rewrite shift_0, cview_sub in S. unfold cd_routine.
+      pose proof (H Hwf (base + Nat.min off cap) (cap - off) 0 (dspan_sub base cap off Hs Ha) eq_refl) as S.
+      cbn [skipn] in S. rewrite shift_0, cview_sub_min in S. unfold cd_routine.
       destruct (dec_body (TComp u fs None) (skipn off (cview base cap))) as [[v k]|e] eqn:E;
-        destruct (cd_body Q (TComp u fs None) buf (base + off) (cap - off) 0) as [[v' o']|e'];
+        destruct (cd_body Q (TComp u fs None) buf (base + Nat.min off cap) (cap - off) 0) as [[v' o']|e'];
         cbn [shift sim bind] in *; try contradiction; [|exact S].
       destruct S as [-> [Hmod Hnear]]. split; [reflexivity|].
       pose proof (dec_body_aligned (TComp u fs None) eq_refl _ _ _ E) as Hk.
